@@ -206,6 +206,8 @@ class TLSExtension(object):
         ext = extList[extType]()
         extParser = Parser(parser.getFixBytes(extLength))
         ext = ext.parse(extParser)
+        if extParser.getRemainingLength():
+            raise DecodeError("Extra data after extension payload")
         return ext
 
     def parse(self, p):
